@@ -175,6 +175,7 @@ func (f *FileSnapshotStore) Create(version SnapshotVersion, index, term uint64,
 		return nil, err
 	}
 
+	verifFSHook("create.mkdir", path)
 	// Create the sink
 	sink := &FileSnapshotSink{
 		store:     f,
@@ -202,6 +203,7 @@ func (f *FileSnapshotStore) Create(version SnapshotVersion, index, term uint64,
 		return nil, err
 	}
 
+	verifFSHook("create.meta", path)
 	// Open the state file
 	statePath := filepath.Join(path, stateFilePath)
 	fh, err := os.Create(statePath)
@@ -210,6 +212,7 @@ func (f *FileSnapshotStore) Create(version SnapshotVersion, index, term uint64,
 		return nil, err
 	}
 	sink.stateFile = fh
+	verifFSHook("create.state", path)
 
 	// Create a CRC64 hash
 	sink.stateHash = crc64.New(crc64.MakeTable(crc64.ECMA))
@@ -373,10 +376,12 @@ func (f *FileSnapshotStore) ReapSnapshots() error {
 	for i := f.retain; i < len(snapshots); i++ {
 		path := filepath.Join(f.path, snapshots[i].ID)
 		f.logger.Info("reaping snapshot", "path", path)
+		verifFSHook("reap.before", path)
 		if err := os.RemoveAll(path); err != nil {
 			f.logger.Error("failed to reap snapshot", "path", path, "error", err)
 			return err
 		}
+		verifFSHook("reap.after", path)
 	}
 	return nil
 }
@@ -390,6 +395,7 @@ func (s *FileSnapshotSink) ID() string {
 // Write is used to append to the state file. We write to the
 // buffered IO object to reduce the amount of context switches.
 func (s *FileSnapshotSink) Write(b []byte) (int, error) {
+	defer verifFSHook("write", s.dir)
 	return s.buffered.Write(b)
 }
 
@@ -411,12 +417,14 @@ func (s *FileSnapshotSink) Close() error {
 		return err
 	}
 
+	verifFSHook("close.finalized", s.dir)
 	// Write out the meta data
 	if err := s.writeMeta(); err != nil {
 		s.logger.Error("failed to write metadata", "error", err)
 		return err
 	}
 
+	verifFSHook("close.meta", s.dir)
 	// Move the directory into place
 	newPath := strings.TrimSuffix(s.dir, tmpSuffix)
 	if err := os.Rename(s.dir, newPath); err != nil {
@@ -424,6 +432,7 @@ func (s *FileSnapshotSink) Close() error {
 		return err
 	}
 
+	verifFSHook("close.renamed", newPath)
 	if !s.noSync && runtime.GOOS != "windows" { // skipping fsync for directory entry edits on Windows, only needed for *nix style file systems
 		parentFH, err := os.Open(s.parentDir)
 		if err != nil {
@@ -438,6 +447,7 @@ func (s *FileSnapshotSink) Close() error {
 		}
 	}
 
+	verifFSHook("close.synced", newPath)
 	// Reap any old snapshots
 	if err := s.store.ReapSnapshots(); err != nil {
 		return err
@@ -460,6 +470,7 @@ func (s *FileSnapshotSink) Cancel() error {
 		return err
 	}
 
+	verifFSHook("cancel.finalized", s.dir)
 	// Attempt to remove all artifacts
 	return os.RemoveAll(s.dir)
 }
@@ -471,6 +482,7 @@ func (s *FileSnapshotSink) finalize() error {
 		return err
 	}
 
+	verifFSHook("finalize.flushed", s.dir)
 	// Sync to force fsync to disk
 	if !s.noSync {
 		if err := s.stateFile.Sync(); err != nil {
@@ -478,6 +490,7 @@ func (s *FileSnapshotSink) finalize() error {
 		}
 	}
 
+	verifFSHook("finalize.synced", s.dir)
 	// Get the file size
 	stat, statErr := s.stateFile.Stat()
 
